@@ -1,6 +1,7 @@
 import MindsVerif.Lemmas.TokStr
 import MindsVerif.Lemmas.RawQueryLink
 import MindsVerif.Model.MultiWord
+import MindsVerif.Model.StoredAttr
 import MindsVerif.Gen.Valid_mindsdb
 import MindsVerif.Gen.C16Data
 import MindsVerif.Gen.Tables_mindsdb
@@ -24,8 +25,12 @@ Current state of the statements
 * shape theorems for any configuration: `C16_partial`, `C16_layout`, `C16_closed_form`, `C16_columns`, `C16_layout_source`.
 * kernel checks on regenerated data: `phi16_mindsdb`, `phi_mindsdb`, `C16_live_cfg`, `pin_*`, `mw_parsed`, `mw_plus_kinds`.
 * `sepStable_*`: decided on a listed set of sample gaps (a sample, not a ∀-statement).
+* attribute level (round 5, section `attr` at the end): `C16_attr`, `C16_attr_live`, `C16_attr_iff` over `StoredAttr.Path`
+  (grammar action · constructor · afterwards); kernel checks on regenerated probe rows: `glue_identity`, `ctor_identity`,
+  `embed_all_probed`, `embed_prods`, `pin_storedAttrs`, `attrs_covered`, `pin_ctorForms`, `pin_attrProblems`, `pin_payloads`.
 * regression / history (about code that no longer exists, named `C16_regress_*` / `C16_regression_*`): the lexer whose four
-  actions rewrote `value` (`pinnedCfg`), the `tokens_to_string` body without the `line_num +=` statement.
+  actions rewrote `value` (`pinnedCfg`), the `tokens_to_string` body without the `line_num +=` statement; text-level rewriters
+  in the constructor / action (`C16_regress_attr_*`).
 Not a theorem: that re-lexing the stored text yields the same tokens / the same tree (no model of the full scanner); this is
 the impl-level oracle of `tools/props/c16.py`.
 -/
@@ -359,5 +364,124 @@ def live1 : List Tok := [lexTok C16Data.actCfg otherTy "name".toList 1 0, lexTok
 example : LexInv C16Data.actCfg live1 := by decide  -- [review]
 example : tokensToString live1 = "name = 'it''s',\n    @v ''".toList := by decide  -- [review]
 example : tokensToString live1 = verbatim live1 := C16 live1 (by decide)  -- [review]
+
+/-! ## round 5 — the attribute level: from the result of `tokens_to_string` to what the user reads
+
+`C16` / `C16_command` end at `queryStr q`, the string `tokens_to_string` returns.  The attribute (`query_str`, `if_query_str`,
+`NativeQuery.query`) is `p.stored (queryStr q)` for the way `p : Path` that string takes through the grammar action, the
+constructor and whatever touches the node afterwards.  `C16_attr_iff`: at the model level the attribute-level statement holds
+for a way **iff** the way hands every text on unchanged — no weaker condition on the action / constructor suffices, which is
+why the obligations below pin the identity.  The code's way is tied to `Path.id` by data regenerated on every run
+(`tools/extract/c16_attr.py`): `glue_identity` (whole way, `tokens_to_string` replaced by a sentinel text, read at the
+discovered access path, one sentence per embedding production: `embed_all_probed` over the production trie C05 is proved
+about), `ctor_identity` (constructor alone), `pin_ctorForms` (`self.<attr> = <param>` read off the class's `ast`),
+`pin_storedAttrs` (the classes / attributes a text was found in).  The payloads are template-like and regex-bait contents
+(`{{ x }}`, `${x}`, `%s`, `{0}`, backslashes, doubled blanks, comment markers, `;`, keywords, …) in every literal kind.
+That the rows are a *sample* of texts (not all texts) is the gap between these obligations and `Path.Transparent`; the
+syntactic form `pin_ctorForms` closes it for the constructor, the per-case glue comparison of the check run
+(`corr:tokstr`, stored = what `tokens_to_string` returned) covers the action on every generated input. -/
+section attr
+open MindsVerif.StoredAttr
+
+/-- **attribute level**: along a way that hands texts on unchanged, the attribute of every embedding command holds the user's
+characters with only the gaps blanked (live lexer configuration, any `raw_query` derivation) -/
+theorem C16_attr (p : Path) (hp : p.Transparent) (q : RQ) (hl : LexInv C16Data.actCfg q.yield) :
+    p.stored (queryStr q) = verbatim q.yield := by
+  rw [hp]; exact C16_command q hl
+
+/-- the code as it stands (`query_str = tokens_to_string(p.raw_query)`; `self.query_str = query_str`) -/
+theorem C16_attr_live (q : RQ) (hl : LexInv C16Data.actCfg q.yield) :
+    Path.id.stored (queryStr q) = verbatim q.yield := C16_attr _ Path.id_transparent q hl
+
+/-- **the identity is necessary**: the attribute-level statement (all token lists the lexer invariants allow) holds for a
+way iff the way is transparent.  (`→`: every text is the output of `tokens_to_string` on a one-token list.) -/
+theorem C16_attr_iff (p : Path) :
+    (∀ toks, LexInv C16Data.actCfg toks → p.stored (tokensToString toks) = verbatim toks) ↔ p.Transparent := by
+  constructor
+  · intro h s
+    let t : Tok := ⟨.other 0, s, s, 1, 0⟩
+    have hl : LexInv C16Data.actCfg [t] := by
+      refine ⟨?_, rfl⟩
+      intro x hx
+      rw [List.mem_singleton] at hx
+      subst hx
+      rfl
+    have h1 := h [t] hl
+    rw [C16 [t] hl] at h1
+    have hv : verbatim [t] = s := by simp [verbatim, layoutBy, tailBy, t]
+    rw [hv] at h1
+    exact h1
+  · intro h toks hl
+    rw [h]; exact C16 toks hl
+
+/-- whole way: every payload passed as the result of `tokens_to_string` of every probed sentence is read back unchanged at
+every place of the tree the text ends up in, and every payload was tried on every way -/
+theorem glue_identity : allIdentity C16Data.texts C16Data.nPayloads C16Data.glueRows = true := by decide +kernel
+
+/-- constructor alone: `Class(param = payload).attr = payload` for every stored-text attribute and every payload -/
+theorem ctor_identity : allIdentity C16Data.texts C16Data.nPayloads C16Data.ctorRows = true := by decide +kernel
+
+/-- every embedding production of the exported grammar (the object C05 / `C16_link` are about) was reduced by a probed
+sentence whose embedded queries were all found in the tree -/
+theorem embed_all_probed : embedCovered C16Data.ids Tables_mindsdb.prods C16Data.embedProbed = true := by decide +kernel
+
+/-- the embedding productions of the exported grammar are exactly the probed ones -/
+theorem embed_prods : embedProds C16Data.ids 1 0 Tables_mindsdb.prods = C16Data.embedProbed ∨
+    (embedProds C16Data.ids 1 0 Tables_mindsdb.prods).all (C16Data.embedProbed.contains ·) = true := by
+  right; decide +kernel
+
+/-- where the text of an embedded query is stored -/
+theorem pin_storedAttrs : C16Data.storedAttrs =
+    [("CreateAnomalyDetectionModel", "query_str"), ("CreateJob", "if_query_str"), ("CreateJob", "query_str"),
+     ("CreatePredictor", "query_str"), ("CreateTrigger", "query_str"), ("CreateView", "query_str"), ("Evaluate", "query_str"),
+     ("FinetunePredictor", "query_str"), ("NativeQuery", "query"), ("RetrainPredictor", "query_str")] := by decide
+
+/-- each of them has a constructor row and an assignment form; every whole-way row ends in one of them -/
+theorem attrs_covered : attrsCovered C16Data.storedAttrs C16Data.ctorRows C16Data.ctorForms = true ∧
+    rowsInAttrs C16Data.storedAttrs C16Data.glueRows = true := by decide +kernel
+
+/-- every stored-text attribute is assigned as `self.<attr> = <parameter>` in `__init__` (parameter not re-bound, no other
+assignment in the class hierarchy, no descriptor, no `__setattr__` / `__getattr__` / `__getattribute__`) -/
+theorem pin_ctorForms : C16Data.ctorForms.all formOK = true := by decide +kernel
+
+/-- the translator found a sentence for every embedding production and the text of every embedded query in the tree -/
+theorem pin_attrProblems : C16Data.attrProblems = [] := by decide
+
+/-- the payload families; each payload is an inner text the lexer accepts and `tokens_to_string` reproduces as written -/
+theorem pin_payloads : C16Data.payloadNames = ["jinja", "shell", "printf", "format", "backslash", "control", "spaces", "comment",
+    "semicolon", "keyword", "brackets", "unicode", "numbers", "long", "quotes", "outside"] ∧
+    C16Data.payloadsPlain.all id = true ∧ C16Data.payloadsPlain.length = C16Data.nPayloads := by decide
+
+/-! regression witnesses: a way that rewrites the text is not transparent, and the stored attribute is not verbatim -/
+
+/-- `body = '{{ draft }}'` -/
+def av1 : List Tok := [lexTok C16Data.actCfg otherTy "body".toList 1 0, lexTok C16Data.actCfg otherTy "=".toList 1 5,
+  lexTok C16Data.actCfg .quote "'{{ draft }}'".toList 1 7]
+
+/-- a constructor that canonicalises job variables on the text (`re.sub(r'\{\{\s*(\w+)\s*\}\}', r'{{\1}}', …)`) changes the
+contents of a string literal -/
+theorem C16_regress_attr_canonvars : LexInv C16Data.actCfg av1 ∧ verbatim av1 = "body = '{{ draft }}'".toList ∧
+    (Path.mk (fun s => s) canonVars (fun s => s)).stored (tokensToString av1) = "body = '{{draft}}'".toList := by
+  decide +kernel
+
+/-- `select 'a  b'` -/
+def av2 : List Tok := [lexTok C16Data.actCfg otherTy "select".toList 1 0, lexTok C16Data.actCfg .quote "'a  b'".toList 1 7]
+
+/-- a grammar action that collapses runs of blanks on the text changes the contents of a string literal -/
+theorem C16_regress_attr_collapse : LexInv C16Data.actCfg av2 ∧ verbatim av2 = "select 'a  b'".toList ∧
+    (Path.mk collapseBlanks (fun s => s) (fun s => s)).stored (tokensToString av2) = "select 'a b'".toList := by
+  decide +kernel
+
+theorem C16_regress_attr_not_transparent : ¬ (Path.mk (fun s => s) canonVars (fun s => s)).Transparent ∧
+    ¬ (Path.mk collapseBlanks (fun s => s) (fun s => s)).Transparent := by
+  constructor
+  · intro h
+    have := h "'{{ x }}'".toList
+    revert this; decide +kernel
+  · intro h
+    have := h "a  b".toList
+    revert this; decide +kernel
+
+end attr
 
 end MindsVerif.Props.C16
